@@ -125,8 +125,64 @@ SCENARIOS.update({
         edits=[('write', '/proj/src/blob.bin', b'\x01\x02\x03\x04')],
         call2=dict(main='/proj/src/main.asm', idirs=[], cwd='/proj/run')),
 })
+SCENARIOS.update({
+    # no history: one call, compared with an equivalent call (ref) - a relative -i directory is relative to the
+    # working directory, not to the including file
+    'relative_idir_bytes': dict(
+        files={'/proj/src/main.asm': ['top:', 'addi x1, x0, K0', 'include_bytes blob.bin', 'L:', 'dw L'],
+               '/proj/run/assets/blob.bin': b'\x5a\x10\x11\x12',
+               '/proj/src/assets/blob.bin': b'\x5a\xe0\xe1\xe2'},
+        call1=None, edits=[],
+        call2=dict(main='/proj/src/main.asm', idirs=['assets'], cwd='/proj/run'),
+        ref=dict(main='/proj/src/main.asm', idirs=['/proj/run/assets'], cwd='/proj/run')),
+    'relative_idir_bytes_only_cwd': dict(
+        files={'/proj/src/main.asm': ['top:', 'addi x1, x0, K0', 'include_bytes blob.bin', 'L:', 'dw L'],
+               '/proj/run/assets/blob.bin': b'\x5a\x10\x11\x12'},
+        call1=None, edits=[],
+        call2=dict(main='/proj/src/main.asm', idirs=['assets'], cwd='/proj/run'),
+        ref=dict(main='/proj/src/main.asm', idirs=['/proj/run/assets'], cwd='/proj/run')),
+    'relative_idir_include': dict(
+        files={'/proj/src/main.asm': ['top:', 'addi x1, x0, K0', 'include part.asm', 'j top'],
+               '/proj/run/lib/part.asm': ['part:', 'dw part'],
+               '/proj/src/lib/part.asm': ['part:', 'db 1', 'align 4', 'dw part', 'dw top']},
+        call1=None, edits=[],
+        call2=dict(main='/proj/src/main.asm', idirs=['lib'], cwd='/proj/run'),
+        ref=dict(main='/proj/src/main.asm', idirs=['/proj/run/lib'], cwd='/proj/run')),
+    'dotdot_idir_include': dict(
+        files={'/proj/src/main.asm': ['top:', 'addi x1, x0, K0', 'include part.asm', 'j top'],
+               '/proj/lib/part.asm': ['part:', 'dw part']},
+        call1=None, edits=[],
+        call2=dict(main='/proj/src/main.asm', idirs=['../lib'], cwd='/proj/run'),
+        ref=dict(main='/proj/src/main.asm', idirs=['/proj/lib'], cwd='/proj/run')),
+})
+SCENARIOS.update({
+    # the including file itself lives in the first -i directory; the name it includes exists there and in a later -i directory
+    'includer_in_first_idir': dict(
+        files={'/proj/src/main.asm': ['top:', 'addi x1, x0, K0', 'include entry.asm', 'j top'],
+               '/proj/lib1/entry.asm': ['entry:', 'include util.asm', 'dw entry'],
+               '/proj/lib1/util.asm': ['UTIL_ID = 11', 'addi x5, x0, UTIL_ID', 'addi x6, x0, 1'],
+               '/proj/lib2/util.asm': ['UTIL_ID = 22', 'addi x5, x0, UTIL_ID']},
+        call1=None, edits=[],
+        call2=dict(main='/proj/src/main.asm', idirs=['/proj/lib1', '/proj/lib2'], cwd='/proj/run'),
+        ref=dict(main='/proj/src/main.asm', idirs=['/proj/lib1'], cwd='/proj/run')),
+    'same_idir_twice': dict(
+        files={'/proj/src/main.asm': ['top:', 'addi x1, x0, K0', 'include util.asm', 'j top'],
+               '/proj/lib1/util.asm': ['UTIL_ID = 11', 'addi x5, x0, UTIL_ID', 'addi x6, x0, 1'],
+               '/proj/lib2/util.asm': ['UTIL_ID = 22', 'addi x5, x0, UTIL_ID']},
+        call1=None, edits=[],
+        call2=dict(main='/proj/src/main.asm', idirs=['/proj/lib1', '/proj/lib2', '/proj/lib1'], cwd='/proj/run'),
+        ref=dict(main='/proj/src/main.asm', idirs=['/proj/lib1'], cwd='/proj/run')),
+    'idir_is_source_dir': dict(
+        files={'/proj/src/main.asm': ['top:', 'addi x1, x0, K0', 'include util.asm', 'j top'],
+               '/proj/src/util.asm': ['UTIL_ID = 11', 'addi x5, x0, UTIL_ID', 'addi x6, x0, 1'],
+               '/proj/lib2/util.asm': ['UTIL_ID = 22', 'addi x5, x0, UTIL_ID']},
+        call1=None, edits=[],
+        call2=dict(main='/proj/src/main.asm', idirs=['/proj/src', '/proj/lib2'], cwd='/proj/run'),
+        ref=dict(main='/proj/src/main.asm', idirs=[], cwd='/proj/run')),
+})
 BY_PROP = {
-    'C14': ['idir_switch', 'nested_edit', 'shadow_appears', 'source_text_then_path', 'failed_nested_then_created', 'failed_then_idir_added'],
+    'C10': ['relative_idir_bytes', 'relative_idir_bytes_only_cwd', 'blob_rewritten', 'include_bytes_removed'],
+    'C14': ['includer_in_first_idir', 'same_idir_twice', 'idir_is_source_dir', 'relative_idir_include', 'dotdot_idir_include', 'idir_switch', 'nested_edit', 'shadow_appears', 'source_text_then_path', 'failed_nested_then_created', 'failed_then_idir_added'],
     'C15': ['include_removed', 'nested_include_removed', 'include_bytes_removed', 'same_text_other_project_error'],
     'C16': list(SCENARIOS),
 }
@@ -158,9 +214,9 @@ def history_task(prop, sname, kbits):
         v = vfsmod.VFS(cwd)
         for d in _dirs_of(state) | {cwd, '/proj/run'}:
             v.add_dir(d)
-        for call in (sc['call1'], sc['call2']):
-            for d in call['idirs']:
-                v.add_dir(d)
+        for call in (sc['call1'], sc['call2'], sc.get('ref')):
+            for d in (call or {}).get('idirs', []):
+                v.add_dir(posixpath.normpath(posixpath.join((call or {}).get('cwd', '/'), d)))
         for pth, content in state.items():
             if isinstance(content, bytes):
                 v.add_bytes(pth, content)
@@ -198,18 +254,19 @@ def history_task(prop, sname, kbits):
         state = dict(sc['files'])
         # one copy of the module lives through both calls (loaded per path: nothing leaks between paths)
         asm = asmshim.load_asm_shimmed()
-        v = make_vfs(state, sc['call1']['cwd'])
+        v = make_vfs(state, (sc['call1'] or sc['call2'])['cwd'])
         v.install(asm)
         with prof:
-            first = call(asm, sc['call1'], K, compress)
+            first = call(asm, sc['call1'], K, compress) if sc['call1'] else None
             apply_edits(v, state)
             v.cwd = sc['call2']['cwd']
             hist = call(asm, sc['call2'], K, compress)
         fresh_mod = asmshim.load_asm_shimmed()
-        v2 = make_vfs(state, sc['call2']['cwd'])
+        refc = sc.get('ref') or sc['call2']
+        v2 = make_vfs(state, refc['cwd'])
         v2.install(fresh_mod)
         with prof:
-            fresh = call(fresh_mod, sc['call2'], K, compress)
+            fresh = call(fresh_mod, refc, K, compress)
         p.notes.update(K=K, compress=compress, first=first)
         return hist, fresh
 
@@ -306,16 +363,17 @@ def real_history(sc, kv, compress):
                     f.write(content if isinstance(content, bytes) else _text(content))
             for pth, content in state.items():
                 put(pth, content)
-            for c in (sc['call1'], sc['call2']):
-                for d in c['idirs'] + [c['cwd']]:
-                    os.makedirs(root + d, exist_ok=True)
+            for c in (sc['call1'], sc['call2'], sc.get('ref')):
+                if c:
+                    for d in c['idirs'] + [c['cwd']]:
+                        os.makedirs(root + posixpath.normpath(posixpath.join(c['cwd'], d)), exist_ok=True)
 
             def call(c):
                 os.chdir(root + c['cwd'])
                 labels, consts = {}, {'K0': kv}
                 main = c['main'] if '\n' in c['main'] else root + c['main']
                 try:
-                    o = real.assemble(main, constants=consts, labels=labels, include_dirs=[root + d for d in c['idirs']], compress=compress)
+                    o = real.assemble(main, constants=consts, labels=labels, include_dirs=[(root + d if d.startswith('/') else d) for d in c['idirs']], compress=compress)
                     return ('ok', bytes(o), labels)
                 except Exception as e:      # noqa
                     line = getattr(e, 'line', None)
@@ -323,7 +381,7 @@ def real_history(sc, kv, compress):
                     if isinstance(lf, str) and lf.startswith(root):
                         lf = lf[len(root):]
                     return ('exc', type(e).__name__, lf, getattr(line, 'number', None))
-            if with_history:
+            if with_history and sc['call1']:
                 call(sc['call1'])
             for e in sc['edits']:
                 if e[0] == 'write':
@@ -333,7 +391,7 @@ def real_history(sc, kv, compress):
                     os.utime(root + e[1], ns=(st.st_atime_ns, st.st_mtime_ns + 2_000_000_000))
                 else:
                     os.remove(root + e[1])
-            out.append(call(sc['call2']))
+            out.append(call(sc['call2'] if with_history else (sc.get('ref') or sc['call2'])))
         finally:
             os.chdir(old)
             shutil.rmtree(root, ignore_errors=True)
